@@ -1960,6 +1960,11 @@ class CheckImplied(todict.PrintNode):
                     "{}:Too many arguments to 'size': ".format(
                         self.context.linenumber, self.expr)
                 )
+            if not isinstance(node.args[0], declast.Identifier):
+                raise RuntimeError(
+                    "{}:Argument of 'size' must be an argument name: {}".format(
+                        self.context.linenumber, self.expr)
+                )
             argname = node.args[0].name
             arg = declast.find_arg_by_name(self.decls, argname)
             if arg is None:
@@ -1968,11 +1973,16 @@ class CheckImplied(todict.PrintNode):
                         self.context.linenumber, argname, self.expr)
                 )
             return "size"
-        elif node.name in ["len", "len_trim"]:
-            # len(arg)  len_trim(arg)
+        elif node.name in ["len", "len_trim", "type"]:
+            # len(arg)  len_trim(arg)  type(arg)
             if len(node.args) != 1:
                 raise RuntimeError(
                     "{}:Too many arguments to '{}': {}".format(
+                        self.context.linenumber, node.name, self.expr)
+                )
+            if not isinstance(node.args[0], declast.Identifier):
+                raise RuntimeError(
+                    "{}:Argument of '{}' must be an argument name: {}".format(
                         self.context.linenumber, node.name, self.expr)
                 )
             argname = node.args[0].name
@@ -2009,6 +2019,11 @@ def check_implied_attrs(context, decls):
     """
     for decl in decls:
         expr = decl.attrs["implied"]
+        if expr is True:
+            raise RuntimeError(
+                "{}:implied attribute must have a value".format(
+                    context.linenumber)
+            )
         if expr:
             check_implied(context, expr, decls)
 
